@@ -146,8 +146,11 @@ def kw_loops(lit):
     heads = [h for h in range(L + 1) if not inside[h]]
     outer = " || ".join("(i == %d && %d <= k && k <= %d)" % (h, mand[h], alln[h]) for h in heads)
     # inside section j (lb < i <= rb): k and i advance together in loop 0; only i advances in loop 1
-    sec0 = " || ".join("(%d < i && i <= %d && %d <= k - (i - %d) && k - (i - %d) <= %d)" % (lb, rb, mand[lb], lb + 1, lb + 1, alln[lb]) for lb, rb in pairs)
-    sec1 = " || ".join("(%d < i && i <= %d && %d <= k && k - (i - %d) <= %d)" % (lb, rb, mand[lb], lb + 1, alln[lb]) for lb, rb in pairs)
+    # (the section is pinned through the value of i on entry to the loop: a disjunction over the sections alone would let the
+    #  havoc'd i jump into another section)
+    E = "__CPROVER_loop_entry(i)"
+    sec0 = " || ".join("(%s == %d && %d < i && i <= %d && %d <= k - (i - %d) && k - (i - %d) <= %d)" % (E, lb + 1, lb, rb, mand[lb], lb + 1, lb + 1, alln[lb]) for lb, rb in pairs)
+    sec1 = " || ".join("(%d < %s && %s <= i && i <= %d && %d <= k && k - (i - %d) <= %d)" % (lb, E, E, rb, mand[lb], lb + 1, alln[lb]) for lb, rb in pairs)
     return [
         {"function": "LPFhasKeyword", "loop": 0, "locals": ["i", "k"], "invariants": common + [sec0], "assigns": ["i", "k"], "decreases": "%d - i" % L},
         {"function": "LPFhasKeyword", "loop": 1, "locals": ["i", "k"], "invariants": common + [sec1], "assigns": ["i"], "decreases": "%d - i" % L},
@@ -265,14 +268,14 @@ instances.append({
          "invariants": [
              IN("p"),
              "g_off <= %s && %s <= g_len" % (P_OFF, P_OFF),
-             "(g_off + g_k < %s) ==> v_k != (char)chr" % P_OFF,
+             "(g_off + g_k < %s) ==> (v_k != (char)chr && v_k != 0)" % P_OFF,
          ],
          "assigns": ["p"], "decreases": "g_len - %s" % P_OFF},
         {"function": "LPFhasRowName", "loop": 0, "locals": ["end", "dcolpos"],
          "invariants": ["-1 <= end && end <= dcolpos - 1"],
          "assigns": ["end"], "decreases": "end + 1"},
         {"function": "LPFhasRowName", "loop": 1, "locals": ["end", "srt"],
-         "invariants": ["-1 <= srt && srt <= end - 1"],
+         "invariants": ["-1 <= srt && srt <= end - 1", "gp_line[g_off + srt + 1] != ' '"],
          "assigns": ["srt"], "decreases": "srt + 1"},
         {"function": "LPFhasRowName", "loop": 2, "locals": ["end", "srt", "i", "k", "name"],
          "invariants": ["srt <= i && i <= end + 1", "k == i - srt", "(k > 0) ==> name[0] == gp_line[g_off + srt]"],
